@@ -47,7 +47,7 @@ DOCUMENTED_SHORTHAND_KEYS = [
     "allocator_include", "allocator_type", "allocator_is_default_constructible", "ctor_convention",
 ]  # fmt: skip
 SCALARS = [".h", ".hpp", "x", 0, 1, 2, True, False, "little", "any", "c++14", "c++17", "c++17-pmr", "c++20", "", "true", None, None]
-TOP_KEYS = ["extension", "options", "named_types", "custom_key", "custom_map", "limit_empty_lines", "trim_trailing_whitespace", "named_values", "defaults", "stropping_suffix", "stropping_prefix", "namespace_file_stem", "support_namespace"]
+TOP_KEYS = ["extension", "options", "named_types", "custom_key", "custom_map", "limit_empty_lines", "trim_trailing_whitespace", "named_values", "defaults", "stropping_suffix", "stropping_prefix", "namespace_file_stem", "support_namespace", "enable_stropping", "use_standard_types"]
 OPT_KEYS = ["target_endianness", "enable_serialization_asserts", "omit_float_serialization_support", "std", "custom_opt", "nested_opt", "cast_format", "enable_override_variable_array_capacity"]
 SUB_KEYS = ["a", "b", "boolean", "byte", "deep"]
 
@@ -319,7 +319,7 @@ def run_case(case: dict, ctx: dict) -> dict:
         base_lang = r.choice(LANGS)
         for i in range(r.between(4, 14)):
             ro = r.sub("op", i)
-            kind = ro.weighted([("new", 2 if nb < 3 else 0), ("files", 4), ("update", 3), ("override", 5), ("create", 5), ("cli", 1)]) if nb else "new"
+            kind = ro.weighted([("new", 2 if nb < 3 else 0), ("files", 4), ("update", 3), ("override", 5), ("create", 5), ("cli", 1), ("edit", 1)]) if nb else "new"
             if kind == "new":
                 ops.append({"op": "new", "lang": base_lang if ro.chance(3, 4) else ro.choice(LANGS)})
                 nb += 1
@@ -359,6 +359,11 @@ def run_case(case: dict, ctx: dict) -> dict:
                 ops.append(o)
             elif kind == "create":
                 ops.append({"op": "create", "b": ro.below(nb)})
+            elif kind == "edit":
+                # a caller edits, in place, a list or map the configuration handed out (the only way to ADD one reserved
+                # word: overrides replace lists wholesale); that builder is not modelled any further, all OTHER builders,
+                # their contexts and every builder made later must not see the edit
+                ops.append({"op": "edit", "b": ro.below(nb), "key": ro.choice(["reserved_identifiers", "reserved_identifiers", "named_types", "options"]), "via": ro.choice(["sections", "accessor"])})
             else:
                 flags = {}
                 if ro.chance(1, 2):
@@ -570,6 +575,26 @@ def run_case(case: dict, ctx: dict) -> dict:
             touched[(b, op["key"])] = touched.get((b, op["key"]), 0) + 1
             trace.append("override(b%d,%s:%s)" % (b, op["key"], shape(op["value"])))
             bump("ops", "override")
+        elif kind == "edit":
+            try:
+                if op["via"] == "accessor" and op["key"] == "reserved_identifiers":
+                    handed = bld.config.get_config_value_as_list(section, op["key"])
+                elif op["via"] == "accessor":
+                    handed = bld.config.get_config_value_as_dict(section, op["key"])
+                else:
+                    handed = bld.config.sections()[section][op["key"]]
+                if isinstance(handed, list):
+                    handed.append("zebra_%d" % i)
+                elif hasattr(handed, "__setitem__"):
+                    handed["zebra_%d" % i] = "edited"
+                bump("ops", "edit-handed-out-%s" % type(handed).__name__)
+            except Exception as ex:  # pylint: disable=broad-except
+                bump("ops", "edit-rejected:" + type(ex).__name__)
+            mdl.indeterminate = True
+            for c in contexts:
+                if c["b"] == b:
+                    c["stale"] = True
+            trace.append("edit(b%d,%s,%s)" % (b, op["key"], op["via"]))
         elif kind == "create":
             want, predicts_raise = (None, False) if mdl.indeterminate else mdl.create()
             for c in contexts:
@@ -624,6 +649,16 @@ def run_case(case: dict, ctx: dict) -> dict:
                                 except Exception as ex:  # pylint: disable=broad-except
                                     acc = "raised %s" % type(ex).__name__
                             else:
+                                # the documented boolean reading of a scalar: "false" (any case), "0" and "" are False,
+                                # every other string is True; a null value reads as "" like in get_config_value
+                                sv = str(v) if v is not None else ""
+                                want_b = not (sv.lower() == "false" or sv == "0" or sv == "")
+                                try:
+                                    got_b = lang_obj.get_config_value_as_bool(k)  # type: typing.Any
+                                except Exception as ex:  # pylint: disable=broad-except
+                                    got_b = "raised %s" % type(ex).__name__
+                                if got_b is not want_b:
+                                    violation("boolean-accessor-disagrees-with-merged-value", {"key": k, "merged": repr(v), "as_bool": got_b, "documented": want_b})
                                 acc = lang_obj.get_config_value(k)
                                 v = str(v) if v is not None else ""
                             if acc != v:
